@@ -1086,3 +1086,96 @@ func c15r12(rc *core.RC) {
 		rc.Check(deeper && assigns, "encoder.getFieldMapFromAnonymousParent/depth-propagated", fd.Pos(), "fields of an embedded struct are given the current depth and deeper embedded structs are walked with depth+1")
 	}
 }
+
+// ---- C15.R13 a key that is no field's exact name is looked up case-insensitively ----
+
+// Structs with more than 16 fields (and those whose names collide case-insensitively) resolve an object key through the
+// name map of the struct decoder. Every function that looks a run-time key up in structDecoder.fieldMap must, when
+// that lookup can miss, fall back to a lookup under the lower-cased key (exact match first, then case-insensitive).
+func c15r13(rc *core.RC) {
+	p := rc.P
+	n := 0
+	isFieldSetMap := func(info *types.Info, e ast.Expr) bool {
+		f := core.FieldOf(info, e)
+		if f == nil {
+			return false
+		}
+		m, ok := f.Type().Underlying().(*types.Map)
+		return ok && strings.HasSuffix(m.Elem().String(), "structFieldSet")
+	}
+	for _, fd := range p.Funcs("decoder") {
+		if fd.Body == nil {
+			continue
+		}
+		info := p.Info(fd)
+		// run-time lookups: d.fieldMap[k] read (not assigned) with k a variable that is not the key of a range over the map
+		rangeKeys := map[types.Object]bool{}
+		ast.Inspect(fd.Body, func(m ast.Node) bool {
+			if rs, ok := m.(*ast.RangeStmt); ok && rs.Key != nil {
+				if o := core.ObjOf(info, rs.Key); o != nil {
+					rangeKeys[o] = true
+				}
+			}
+			return true
+		})
+		assigned := map[ast.Expr]bool{}
+		ast.Inspect(fd.Body, func(m ast.Node) bool {
+			if as, ok := m.(*ast.AssignStmt); ok {
+				for _, l := range as.Lhs {
+					assigned[core.Unparen(l)] = true
+				}
+			}
+			return true
+		})
+		var exact []*ast.IndexExpr
+		folded := map[types.Object]bool{} // key variables that are also looked up lower-cased
+		ast.Inspect(fd.Body, func(m ast.Node) bool {
+			ix, ok := m.(*ast.IndexExpr)
+			if !ok || assigned[ix] || !isFieldSetMap(info, ix.X) {
+				return true
+			}
+			switch k := core.Unparen(ix.Index).(type) {
+			case *ast.Ident:
+				if o := core.ObjOf(info, k); o != nil && !rangeKeys[o] {
+					if _, isVar := o.(*types.Var); isVar && o.Parent() != o.Pkg().Scope() {
+						exact = append(exact, ix)
+					}
+				}
+			case *ast.CallExpr:
+				name := core.CalleeName(info, k)
+				if (name == "strings.ToLower" || name == "decoder.toASCIILower") && len(k.Args) == 1 {
+					if o := core.ObjOf(info, k.Args[0]); o != nil {
+						folded[o] = true
+					}
+				}
+			}
+			return true
+		})
+		for i, ix := range exact {
+			o := core.ObjOf(info, ix.Index)
+			// a lookup whose key was itself produced by lower-casing is the fallback, not an exact lookup
+			isLowered := false
+			ast.Inspect(fd.Body, func(m ast.Node) bool {
+				if as, ok := m.(*ast.AssignStmt); ok && len(as.Lhs) == 1 && len(as.Rhs) == 1 && core.ObjOf(info, as.Lhs[0]) == o {
+					if c, isCall := core.Unparen(as.Rhs[0]).(*ast.CallExpr); isCall {
+						if name := core.CalleeName(info, c); name == "strings.ToLower" || name == "decoder.toASCIILower" {
+							isLowered = true
+						}
+					}
+				}
+				return true
+			})
+			if isLowered {
+				continue
+			}
+			n++
+			fn := p.FuncName(fd)
+			rc.Touch(fn)
+			key := fmt.Sprintf("%s/key-lookup#%d case-insensitive-fallback", fn, i+1)
+			rc.Check(folded[o], key, ix.Pos(), "the key looked up in %s is also looked up lower-cased when the exact name misses (encoding/json: exact match first, then case-insensitive); without it a struct with more than 16 fields ignores {\"NAME\":…} for a field named name", core.Src(p.Fset, ix.X))
+		}
+	}
+	if n < 1 {
+		rc.Unknown("decoder/field-map-lookups", token.NoPos, "no run-time lookup of an object key in a struct decoder's name map found (confirmed: structDecoder.lookupField)")
+	}
+}
